@@ -6,7 +6,7 @@
    Part 4: containers (C15): nested DataFrame vs 3-D array, at apply and at fit. *)
 From Coq Require Import QArith List Bool ZArith Arith Lia Permutation.
 Require Import SkV.Lib.Base SkV.C14.Model SkV.C16.Model.
-Require SkV.C15.Model SkV.C15.Lemmas SkV.C15.Proofs SkV.C15.Main.
+Require SkV.C15.Model SkV.C15.Lemmas SkV.C15.Proofs.
 Import ListNotations.
 Open Scope nat_scope.
 
@@ -632,21 +632,30 @@ Section Containers.
   Import SkV.C15.Model.
   Implicit Types (x : K.nested V).
 
+  (* well-formed: n >= 1 instances x c >= 1 variables x T >= 2 time points, rectangular (C15) *)
+  Definition wf_rows (n c T : nat) x : Prop := SkV.C15.Proofs.wf_panel n c T (K.n_rows x).
+
+  (* C15's round trip nested -> 3-D -> nested (SkV.C15.Proofs.a3_to_nested_eq is the lemma behind
+     C15_roundtrip_nested_3d): the conversion back returns the very same rows *)
+  Lemma roundtrip_rows n c T x cn k : wf_rows n c T x ->
+    K.n_rows (K.a3_to_nested cn k (K.nested_to_3d x)) = K.n_rows x.
+  Proof.
+    intro Hwf. unfold K.nested_to_3d. rewrite (SkV.C15.Proofs.a3_to_nested_eq n c T _ Hwf).
+    reflexivity.
+  Qed.
+
   Lemma internal_same n c T x (to_np to_pd : bool) :
-    SkV.C15.Main.wf_nested n c T x -> to_np && to_pd = false ->
+    wf_rows n c T x -> to_np && to_pd = false ->
     internal to_np to_pd (K.RA (K.nested_to_3d x)) = Ok (K.n_rows x) /\
     internal to_np to_pd (K.RN x) = Ok (K.n_rows x).
   Proof.
-    intros [Hwf _] Hf. unfold K.nested_to_3d.
-    destruct (SkV.C15.Main.main_check_X n c T (K.n_rows x) x Hwf) as [_ [H1 [H2 [H3 [H4 _]]]]].
-    unfold internal. destruct to_np, to_pd; try discriminate.
-    - rewrite H3, H2. split; reflexivity.
-    - rewrite H1, H4. split; reflexivity.
-    - rewrite H3, H4. split; reflexivity.
+    intros Hwf Hf. unfold internal, K.check_X, K.nested_to_3d.
+    destruct to_np, to_pd; try discriminate; cbn [andb rows_of];
+      rewrite ?(SkV.C15.Proofs.a3_to_nested_eq n c T _ Hwf); split; reflexivity.
   Qed.
 
   Lemma apply_container_irrelevant {O} n c T x (to_np to_pd : bool) (f : list (list V) -> O) :
-    SkV.C15.Main.wf_nested n c T x -> to_np && to_pd = false ->
+    wf_rows n c T x -> to_np && to_pd = false ->
     est_apply to_np to_pd f (K.RA (K.nested_to_3d x)) = est_apply to_np to_pd f (K.RN x) /\
     est_apply to_np to_pd f (K.RN x) = Ok (apply_map f (K.n_rows x)).
   Proof.
@@ -656,7 +665,7 @@ Section Containers.
 
   Lemma fit_container_irrelevant {Y Th} n c T x (to_np to_pd : bool)
         (fit : K.panel V -> Y -> Th) (y : Y) :
-    SkV.C15.Main.wf_nested n c T x -> to_np && to_pd = false ->
+    wf_rows n c T x -> to_np && to_pd = false ->
     est_fit to_np to_pd fit (K.RA (K.nested_to_3d x)) y = est_fit to_np to_pd fit (K.RN x) y /\
     est_fit to_np to_pd fit (K.RN x) y = Ok (fit (K.n_rows x) y).
   Proof.
@@ -666,14 +675,12 @@ Section Containers.
 
   (* nested -> 3-D -> nested (any column names, any cell kind) is invisible to the estimator *)
   Lemma apply_after_roundtrip {O} n c T x (to_np to_pd : bool) (f : list (list V) -> O) cn k :
-    SkV.C15.Main.wf_nested n c T x -> to_np && to_pd = false ->
+    wf_rows n c T x -> to_np && to_pd = false ->
     est_apply to_np to_pd f (K.RN (K.a3_to_nested cn k (K.nested_to_3d x))) =
     est_apply to_np to_pd f (K.RN x).
   Proof.
-    intros Hwf Hf.
-    destruct (SkV.C15.Main.main_roundtrip_nested_3d n c T x Hwf) as [_ Hrt].
-    specialize (Hrt cn k). unfold K.nested_to_3d in Hrt.
-    unfold est_apply, internal, K.check_X, K.nested_to_3d.
+    intros Hwf Hf. pose proof (roundtrip_rows n c T x cn k Hwf) as Hrt.
+    unfold est_apply, internal, K.check_X, K.nested_to_3d in *.
     destruct to_np, to_pd; try discriminate; cbn [andb rows_of]; rewrite Hrt; reflexivity.
   Qed.
 
@@ -695,7 +702,7 @@ Definition tfit_rep (t : tconf) (to_np to_pd : bool) (r : K.rep Q) : res nat :=
 
 Lemma closed_form_container_irrelevant t n c T (x : K.nested Q) n' c' T' (xfit : K.nested Q)
       (to_np to_pd : bool) :
-  SkV.C15.Main.wf_nested n c T x -> SkV.C15.Main.wf_nested n' c' T' xfit ->
+  wf_rows n c T x -> wf_rows n' c' T' xfit ->
   to_np && to_pd = false ->
   tfit_rep t to_np to_pd (K.RA (K.nested_to_3d xfit)) = tfit_rep t to_np to_pd (K.RN xfit) /\
   tfit_rep t to_np to_pd (K.RN xfit) = Ok (tfit t (K.n_rows xfit)) /\
@@ -754,14 +761,14 @@ Lemma ex_nonvacuous :
     Ok [[[1%Q; 2%Q; 3%Q]]; [[4%Q; 5%Q; 0%Q]]; [[6%Q; 0%Q; 0%Q]]] /\
   tapply (TPad None 0%Q) (tfit (TPad None 0%Q) ex_panel) (pick [2; 0; 1] ex_panel) =
     Ok (pick [2; 0; 1] [[[1%Q; 2%Q; 3%Q]]; [[4%Q; 5%Q; 0%Q]]; [[6%Q; 0%Q; 0%Q]]]) /\
-  SkV.C15.Main.wf_nested 3 1 2 ex_nested.
+  wf_rows 3 1 2 ex_nested.
 Proof.
   split.
   - cbn. apply Permutation_sym. apply (perm_trans (l' := [0; 2; 1])).
     + constructor. apply perm_swap.
     + apply perm_swap.
   - split; [reflexivity|]. split; [vm_compute; reflexivity|]. split; [vm_compute; reflexivity|].
-    apply SkV.C15.Main.wf_nestedb_iff. vm_compute. reflexivity.
+    apply SkV.C15.Proofs.wf_panelb_iff. vm_compute. reflexivity.
 Qed.
 
 (* --- statements of Props.v that combine several lemmas ------------------------------------- *)
